@@ -151,6 +151,54 @@ theorem fine_no_deadlock (T : Table) (hT : TimerOk T) (fls : List FLabel) (f : F
   obtain ⟨hinv, _, _⟩ := reach_sim T hT fls f out h
   exact no_deadlock T f hinv h1 h2
 
+/-- … and only a callback reports Escape: no statement of the main goroutine (nor `Close()`, a read
+    return or a timer expiry) emits `C0 0x1B` — ESC is intercepted by `anywhere`, whose arm has no
+    `execute`. -/
+theorem fine_only_callbacks_report_escape (f f' : FSys) (l : FLabel) (o : List Seq)
+    (hl : ∀ i, l ≠ .cb i) (hs : FSys.step handTable f l = some (f', o)) : Seq.c0 0x1B ∉ o := by
+  cases l with
+  | closeSig => simp only [FSys.step, Option.some.injEq, Prod.mk.injEq] at hs; rw [← hs.2]; simp
+  | readRet i =>
+    simp only [FSys.step] at hs
+    split at hs
+    · simp only [Option.some.injEq, Prod.mk.injEq] at hs; rw [← hs.2]; simp
+    · cases hs
+  | expire =>
+    simp only [FSys.step] at hs
+    split at hs
+    · simp only [Option.some.injEq, Prod.mk.injEq] at hs; rw [← hs.2]; simp
+    · cases hs
+  | cb i => exact absurd rfl (hl i)
+  | main =>
+    simp only [FSys.step] at hs
+    cases hpc : f.mpc with
+    | bumped i =>
+      simp only [mainStep, hpc, Option.some.injEq, Prod.mk.injEq] at hs
+      rw [← hs.2]; exact pstep_no_esc_key f.ps i
+    | atSelect =>
+      simp only [mainStep, hpc] at hs
+      split at hs <;> (simp only [Option.some.injEq, Prod.mk.injEq] at hs; rw [← hs.2]; simp)
+    | stopped i =>
+      simp only [mainStep, hpc] at hs
+      split at hs
+      · simp only [Option.some.injEq, Prod.mk.injEq] at hs; rw [← hs.2]; simp
+      · cases hs
+    | fin st v =>
+      cases st <;> simp only [mainStep, hpc] at hs
+      case lock =>
+        split at hs
+        · simp only [Option.some.injEq, Prod.mk.injEq] at hs; rw [← hs.2]; simp
+        · cases hs
+      all_goals (simp only [Option.some.injEq, Prod.mk.injEq] at hs; rw [← hs.2]; simp)
+    | inRead => simp [mainStep, hpc] at hs
+    | done => simp [mainStep, hpc] at hs
+    | readDone i => simp only [mainStep, hpc, Option.some.injEq, Prod.mk.injEq] at hs; rw [← hs.2]; simp
+    | locked i => simp only [mainStep, hpc, Option.some.injEq, Prod.mk.injEq] at hs; rw [← hs.2]; simp
+    | stepped b => simp only [mainStep, hpc, Option.some.injEq, Prod.mk.injEq] at hs; rw [← hs.2]; simp
+
+example : (FSys.step handTable { FSys.init with mpc := .bumped (.rune 0x41) } .main).map (·.2) = some [.print 0x41] := by
+  decide
+
 /-- **The generation check is what makes this true** (the mutex alone does not): with a callback that
     locks but does not compare generations, the same statement-grained system reports Escape *after* the
     sequence `ESC [ A` has been delivered, and sends on the closed channel when the input ends first —
